@@ -5,6 +5,12 @@ import json, os, subprocess, sys, glob, re
 VERIF = os.path.dirname(os.path.dirname(os.path.abspath(__file__)))
 tier = sys.argv[1] if len(sys.argv) > 1 else "quick"
 only = sys.argv[2:]  # optional names
+# the checks run from a snapshot of /verif taken now, so that the harness can be edited while the re-run is under way
+SNAP = "/tmp/verif-snap-%d" % os.getpid()
+subprocess.run(["rsync", "-a", "--delete", "--exclude", "/work", "--exclude", "/seeded", "--exclude", "/.git", "--exclude", "/replay",
+                "--exclude", "/evidence", VERIF + "/", SNAP + "/"], check=True)
+import atexit, shutil
+atexit.register(lambda: shutil.rmtree(SNAP, ignore_errors=True))
 rows = []
 for d in sorted(glob.glob(os.path.join(VERIF, "seeded", "*", ""))):
     name = os.path.basename(d.rstrip("/"))
@@ -21,16 +27,15 @@ for d in sorted(glob.glob(os.path.join(VERIF, "seeded", "*", ""))):
     env = dict(os.environ, VERIF_REPO=wt)
     try:
         for p in meta["breaks_properties"]:
-            r = subprocess.run([os.path.join(VERIF, "check"), p, tier], capture_output=True, text=True, cwd=VERIF, env=env)
+            r = subprocess.run([os.path.join(SNAP, "check"), p, tier], capture_output=True, text=True, cwd=SNAP, env=env)
             m = re.search(r"(violated: .*|WATCHDOG .*|WARNING: DATA RACE|fails: .*)", r.stdout)
             res[p] = {"exit": r.returncode, "detected": r.returncode == 1 and "VIOLATION property=%s" % p in r.stdout,
                       "first_report": m.group(1)[:260] if m else ""}
             print(name, p, "exit", r.returncode, (m.group(1)[:150] if m else ""), flush=True)
     finally:
         subprocess.run(["git", "-C", "/repo", "worktree", "remove", "--force", wt])
-        import shutil
         tag = "alt-" + "".join(ch if ch.isalnum() else "_" for ch in os.path.realpath(wt))[-40:]
-        shutil.rmtree(os.path.join(VERIF, "work", tag), ignore_errors=True)
+        shutil.rmtree(os.path.join(SNAP, "work", tag), ignore_errors=True)
     meta.setdefault("checks_run", {})["tier"] = tier
     meta["checks_run"]["results"] = res
     json.dump(meta, open(os.path.join(d, "meta.json"), "w"), indent=1)
